@@ -55,7 +55,7 @@ func Canon(err error) Res {
 	if err == nil {
 		return Res{OK: true}
 	}
-	r := Res{Type: fmt.Sprintf("%T", err), Msg: err.Error()}
+	r := Res{Type: fmt.Sprintf("%T", err)}
 	var pe jschema.ParsingError
 	var ve jschema.ValidationError
 	if errors.As(err, &pe) {
@@ -65,8 +65,21 @@ func Canon(err error) Res {
 		}
 	} else if errors.As(err, &ve) {
 		r.Lib, r.Code, r.Msg = true, ve.ErrCode(), ve.Message()
+	} else {
+		r.Msg, _ = ErrorText(err)
 	}
 	return r
+}
+
+// ErrorText calls err.Error() and reports a panic inside it (rendering is C07/C17's concern;
+// the other properties must not trip over it).
+func ErrorText(err error) (text string, panicked string) {
+	defer func() {
+		if p := recover(); p != nil {
+			panicked = fmt.Sprint(p)
+		}
+	}()
+	return err.Error(), ""
 }
 
 // Safe runs f and converts a panic into Res.Panic.
